@@ -780,7 +780,7 @@ def simplify_constrained_range(source: str) -> str:
                     redundant_conditions.add(condition)
 
             elif core.match_template(condition, lte_template):
-                if stop is None or comparator.value <= stop:
+                if stop is None or comparator.value < stop:
                     stop = comparator.value + 1
                     redundant_conditions.add(condition)
 
